@@ -65,3 +65,144 @@ class JoinContextHistories(Unit):
             ctx.canary()
         ctx.eng.explore(thunk)
         ctx.bounded.append({"unit": self.name, "bound": "4 histories"})
+
+
+BARRIER_DEFS = {
+    "all": """
+version: 1.0
+tasks:
+  init:
+    action: core.noop
+    next:
+      - do: a, b, c
+  a:
+    action: core.noop
+    next:
+      - do: j
+  b:
+    action: core.noop
+    next:
+      - do: j
+  c:
+    action: core.noop
+    next:
+      - do: j
+  j:
+    join: all
+    action: core.noop
+""",
+    "cycle": """
+version: 1.0
+vars:
+  - i: 0
+tasks:
+  init:
+    action: core.noop
+    next:
+      - do: start
+  start:
+    action: core.noop
+    next:
+      - do: a, b
+  a:
+    action: core.noop
+    next:
+      - do: j
+  b:
+    action: core.noop
+    next:
+      - do: j
+  j:
+    join: all
+    action: core.noop
+    next:
+      - when: <% ctx().i < 1 %>
+        publish: i=<% ctx().i + 1 %>
+        do: start
+""",
+}
+
+
+class _Run(object):
+    """drives a definition natively; records what is offered and started"""
+
+    def __init__(self, defn):
+        spec = native_specs.WorkflowSpec(defn)
+        assert not spec.inspect()
+        self.c = conducting.WorkflowConductor(spec)
+        self.c.request_workflow_status(st.RUNNING)
+        self.started = []
+
+    def start(self, only=None):
+        for t in self.c.get_next_tasks():
+            if only is not None and t["id"] not in only:
+                continue
+            self.started.append(t["id"])
+            self.c.update_task_state(t["id"], t["route"], events.ActionExecutionEvent(st.RUNNING))
+
+    def done(self, tid, status=st.SUCCEEDED):
+        self.c.update_task_state(tid, 0, events.ActionExecutionEvent(status))
+
+    def offered(self):
+        return [t["id"] for t in self.c.get_next_tasks()]
+
+
+def barrier_histories():
+    """(name, observed, expected, detail) for each concrete history"""
+    import itertools
+    out = []
+    # join: all over three branches, every completion order, every position of the slow starter
+    for order in itertools.permutations("abc"):
+        r = _Run(BARRIER_DEFS["all"])
+        r.start(); r.done("init"); r.start()
+        early = []
+        for k, t in enumerate(order):
+            r.done(t)
+            if k < 2 and "j" in r.offered():
+                early.append(t)
+        r.start(); r.done("j")
+        out.append(("all/%s" % "".join(order), (early, r.started.count("j"), r.c.get_workflow_status()),
+                    ([], 1, st.SUCCEEDED), "join: all over a, b, c; completions in order %s" % (order,)))
+    # a join inside a cycle: the second iteration waits for both branches of THAT iteration
+    for first, held in (("a", "b"), ("b", "a")):
+        r = _Run(BARRIER_DEFS["cycle"])
+        r.start(); r.done("init"); r.start(); r.done("start"); r.start()
+        r.done("a"); r.done("b"); r.start(); r.done("j")
+        r.start(); r.done("start")
+        r.start(only=(first,))                 # both branches of iteration 2 are offered; one has started
+        r.done(first)
+        early = "j" in r.offered()
+        out.append(("cycle/%s-first-%s-not-started" % (first, held), early, False,
+                    "second iteration of a loop through join j: %s completed while %s, already offered, has not reported yet" % (first, held)))
+    # control: both branches of iteration 2 started before either completes
+    r = _Run(BARRIER_DEFS["cycle"])
+    r.start(); r.done("init"); r.start(); r.done("start"); r.start()
+    r.done("a"); r.done("b"); r.start(); r.done("j")
+    r.start(); r.done("start"); r.start(); r.done("a")
+    early = "j" in r.offered()
+    r.done("b"); r.start(); r.done("j")
+    out.append(("cycle/both-started", (early, r.started.count("j"), r.c.get_workflow_status()), (False, 2, st.SUCCEEDED),
+                "second iteration, both branches running before the first completes"))
+    return out
+
+
+class JoinBarrierHistories(Unit):
+    bounded = True
+    name = "H.join_barrier_histories"
+    functions = ["orquesta.conducting.WorkflowConductor.update_task_state", "orquesta.conducting.WorkflowConductor.get_inbound_criteria_status",
+                 "orquesta.conducting.WorkflowConductor.get_next_tasks"]
+    obligations = {
+        "C07.hist.barrier_waits_for_this_visit": {"props": ["C07"], "text":
+            "a join is offered only after all its inbound branches have completed into it in the current visit, whatever the completion order, and runs once per visit: in particular, in the second iteration of a loop a branch's record from the previous iteration does not count towards the barrier"},
+    }
+    assumptions = ["BOUNDED: nine concrete histories on two definitions (native run through the public API)"]
+    trusted = ["CPython", "yaql"]
+
+    def run_split(self, ctx, split):
+        def thunk(e):
+            for name, got, want, detail in barrier_histories():
+                ctx.oblige("C07.hist.barrier_waits_for_this_visit", got == want, {"history": name},
+                           {"history": name, "observed": got, "expected": want, "detail": detail})
+            ctx.canary()
+        ctx.eng.explore(thunk)
+        ctx.bounded.append({"unit": self.name, "bound": "9 histories"})
